@@ -427,6 +427,20 @@ theorem normTerm_spec (nm : Option (Rat × Rat × (List Rat → Params → Val) 
     have := sizesOk_of xs.length t ax (hsz (w, L, f, xs) rfl)
     simp only [normTerm, this, if_true, normOf, vmapTerm, hsel, specNorm]
 
+theorem normNSTerm_spec
+    (nm : Option (Rat × Rat × (List Rat → Params → Val) × List (List Rat) × List (List Rat)))
+    (t : Tree) (ax : Option (List (String × Option Nat)))
+    (sel : Nat → Params) (hsel : ∀ i, select t ax i = sel i)
+    (hsz : ∀ q ∈ nm, ∀ k ∈ mappedSizes t ax, k = q.2.2.2.1.length) :
+    normNSTerm nm t ax = .ok (specNormNS nm sel) := by
+  cases nm with
+  | none => rfl
+  | some q =>
+    obtain ⟨w, L, f, ts, ss⟩ := q
+    have := sizesOk_of ts.length t ax (hsz (w, L, f, ts, ss) rfl)
+    have hf : (fun i => select t ax i) = sel := funext hsel
+    simp only [normNSTerm, this, if_true, specNormNS, hf]
+
 end Jinns.Holds
 
 namespace Jinns.Holds
@@ -545,11 +559,17 @@ theorem evalSingle_spec (p : Params) (s : Single) (hw : wellFormed p s = true) :
     intro m' hm' k hk
     exact hsz1 m'.xs.length (by
       simp only [termSizes, List.mem_append, List.mem_map]
-      exact Or.inl (Or.inl (Or.inr ⟨m', hm', rfl⟩))) k hk)
+      exact Or.inl (Or.inl (Or.inl (Or.inr ⟨m', hm', rfl⟩)))) k hk)
   have hnm := normTerm_spec s.norm _ _ _ hsel1 (by
     intro q hq k hk
     obtain ⟨w, L, f, xs⟩ := q
     exact hsz1 xs.length (by
+      simp only [Option.mem_def] at hq
+      simp [termSizes, hq]) k hk)
+  have hnmNS := normNSTerm_spec s.normNS _ _ _ hsel1 (by
+    intro q hq k hk
+    obtain ⟨w, L, f, ts, ss⟩ := q
+    exact hsz1 ts.length (by
       simp only [Option.mem_def] at hq
       simp [termSizes, hq]) k hk)
   -- initial condition of the ODE loss
@@ -620,7 +640,7 @@ theorem evalSingle_spec (p : Params) (s : Single) (hw : wellFormed p s = true) :
         · exact rows_len_of_wf s hb m.xs.length (by simp [termSizes, hob]) r hr
         · simp only [wfObs, hob, List.all_eq_true, beq_iff_eq] at ho
           exact ho r hr
-  simp only [evalSingle, evalSingleT, stage1_ok p s hk1, hdyn, hicO, hicP, hbd, hnm, hobs,
+  simp only [evalSingle, evalSingleT, stage1_ok p s hk1, hdyn, hicO, hicP, hbd, hnm, hnmNS, hobs,
     bind, Except.bind, pure, Except.pure]
   simp only [specTerms]
 
@@ -635,6 +655,42 @@ theorem holdsC12_model (p : Params) (s : Single) :
 /-- the model never rejects a well-formed batch -/
 theorem evalSingle_accepts (p : Params) (s : Single) (hw : wellFormed p s = true) :
     ∃ t, evalSingle p s = .ok t := ⟨_, evalSingle_spec p s hw⟩
+
+end Jinns.Holds
+
+/-! ### derivative routing -/
+namespace Jinns.Holds
+open Jinns.ParamBatch
+
+/-- **routing into the rows**: the gradient the model sends to entry `j` of row `i` of a batched key is
+    the contribution of sample `i` evaluated with `override p rows i`, gated by the key's mask -/
+theorem dynGradRow_spec (p : Params) (rows : Rows) (m : MseIn) (df : Tangent) (mask : String → Bool)
+    (k : String) (i j : Nat) :
+    dynGradRow m df (stackTree (ofParams p) rows)
+      (inAxes (stackTree (ofParams p) rows) (some (keys rows))) mask k i j =
+      specGradRow p rows m df mask k i j := by
+  simp only [dynGradRow, specGradRow, select_stackTree]
+
+/-- **routing into the caller's parameters**: nothing for a batched key, the batch mean of the
+    per-sample contributions (each with its own parameters) for the others, gated by the mask -/
+theorem dynGradCaller_spec (p : Params) (rows : Rows) (m : MseIn) (df : Tangent) (mask : String → Bool)
+    (k : String) (j : Nat) :
+    dynGradCaller m df (stackTree (ofParams p) rows)
+      (inAxes (stackTree (ofParams p) rows) (some (keys rows))) mask (keys rows) k j =
+      specGradCaller p rows m df mask k j := by
+  simp only [dynGradCaller, specGradCaller, select_stackTree, contains_keys]
+
+/-- a key whose derivative key is off receives no gradient, neither in its rows nor in the caller's value -/
+theorem specGrad_masked (p : Params) (rows : Rows) (m : MseIn) (df : Tangent) (mask : String → Bool)
+    (k : String) (i j : Nat) (h : mask k = false) :
+    specGradRow p rows m df mask k i j = 0 ∧ specGradCaller p rows m df mask k j = 0 := by
+  simp [specGradRow, specGradCaller, h]
+
+/-- the caller's value of a batched key receives no gradient whatever its derivative key -/
+theorem specGradCaller_batched (p : Params) (rows : Rows) (m : MseIn) (df : Tangent)
+    (mask : String → Bool) (k : String) (j : Nat) (h : hasKey k rows = true) :
+    specGradCaller p rows m df mask k j = 0 := by
+  simp [specGradCaller, h]
 
 end Jinns.Holds
 
@@ -666,6 +722,7 @@ def s0 : Single :=
     dyn := some { w := 2, f := fun pt q => [pt.getD 0 0 * nuOf q], xs := [[0], [1]] },
     icODE := some (1, fun pt q => [nuOf q - pt.getD 1 0], [0, 3]),
     icPDE := none, boundary := [], norm := none,
+    normNS := some (3, 2, fun pt q => [pt.getD 0 0 + pt.getD 1 0 * nuOf q], [[0], [1]], [[1], [2], [3]]),
     obs := some { w := 1, f := fun pt q => [nuOf q - pt.getD 1 0], xs := [[0, 1], [1, 2]] } }
 
 example : wellFormed p0 s0 = true := by decide
